@@ -113,6 +113,41 @@ def special_document(rng, kind):
             "info": {"title": "t", "version": "1"},
             "paths": {"/op/{p}": {"get": {"parameters": params, "responses": ok}}},
         }, "cases"
+    if kind == "nullable_string_path":
+        # a nullable string in the path: every scalar reads as a valid string there
+        return {
+            "openapi": "3.0.2",
+            "info": {"title": "t", "version": "1"},
+            "paths": {
+                "/op/{p}": {
+                    "get": {
+                        "parameters": [
+                            {"name": "p", "in": "path", "required": True, "schema": {"type": "string", "minLength": 2, "nullable": True}},
+                            {"name": "n", "in": "query", "required": True, "schema": {"type": "integer", "minimum": 0}},
+                        ],
+                        "responses": ok,
+                    }
+                }
+            },
+        }, "cases"
+    if kind in ("mixed_headers_only", "mixed_cookies_only"):
+        # one plain string next to a violable parameter in the same location, and nothing else to violate
+        where = "header" if kind == "mixed_headers_only" else "cookie"
+        return {
+            "openapi": "3.0.2",
+            "info": {"title": "t", "version": "1"},
+            "paths": {
+                "/op": {
+                    "get": {
+                        "parameters": [
+                            {"name": "X-A" if where == "header" else "ca", "in": where, "required": False, "schema": {"type": "string"}},
+                            {"name": "X-N" if where == "header" else "cn", "in": where, "required": True, "schema": {"type": "integer", "minimum": 1, "maximum": 9}},
+                        ],
+                        "responses": ok,
+                    }
+                }
+            },
+        }, "cases"
     if kind == "nullable_exclusive_body":
         # (known finding: the only mutation of this body is `not: {anyOf: [...]}`, which the dependency cannot generate from)
         return {
@@ -202,7 +237,7 @@ def special_document(rng, kind):
     raise AssertionError(kind)
 
 
-SPECIALS = ["no_inputs", "empty_body_schema", "string_header_only", "string_path_only", "string_path_plus_int_query", "additional_only_object", "optional_body_only", "string_cookies_only", "string_cookies_plus_int_query", "string_headers_plus_int_query", "typelist_31_strings", "typelist_31_mixed", "nullable_text_locations", "nullable_exclusive_body"]
+SPECIALS = ["no_inputs", "empty_body_schema", "string_header_only", "string_path_only", "string_path_plus_int_query", "additional_only_object", "optional_body_only", "string_cookies_only", "string_cookies_plus_int_query", "string_headers_plus_int_query", "typelist_31_strings", "typelist_31_mixed", "nullable_text_locations", "nullable_exclusive_body", "nullable_string_path", "mixed_headers_only", "mixed_cookies_only"]
 
 
 def wire_level_validity(doc, version, location, declared_here, value):
